@@ -7,6 +7,7 @@ from concurrent.futures import ThreadPoolExecutor
 from . import run as R
 from .proto import *
 
+SIM_SEED = 1
 REPLAY_RE = re.compile(r'^<<"REPLAY", "(.*)">>$')
 
 
@@ -17,7 +18,8 @@ def tlc_mc(module, cfg, work, workers=4, timeout=1500, simulate=None, want_repla
     cmd = ['java', '-XX:+UseParallelGC', '-Xmx6g', '-cp', R.JAR, 'tlc2.TLC', '-workers', str(workers), '-metadir', md,
            '-noGenerateSpecTE', '-nowarning', '-config', os.path.join(R.SPEC, cfg)]
     if simulate:
-        cmd += ['-simulate', simulate[0], '-depth', str(simulate[1])]
+        # deterministic simulation: the behaviours depend only on VERIF_SEED
+        cmd += ['-simulate', simulate[0], '-depth', str(simulate[1]), '-seed', str(SIM_SEED), '-aril', '0']
     elif module not in ('MC_Writer', 'MC_Codec', 'MC_Robust', 'MC_Utf8'):
         # (coverage bookkeeping exhausts the heap on the models that embed the 886-entry error table)
         cmd += ['-coverage', '1']
@@ -255,6 +257,8 @@ def reader_scenarios(replays, tag, limit):
 
 
 def run_models(pid, tier, work, jobs, rng):
+    global SIM_SEED
+    SIM_SEED = rng.randrange(1, 2**31 - 1)
     specs = models_for(pid, tier)
     info = {'states': 0, 'transitions': 0, 'models': [], 'exhaustive': bool(specs)}
     s2i = []
